@@ -8,6 +8,7 @@ Open Scope Z_scope.
 
 (** the inner candidates of [s,e): strictly inside, length >= m, >= m surrounding samples *)
 From SK Require Import Check.Scores Check.CbsCheck Proofs.CheckerSoundness Proofs.ValidCuts.
+From SK Require Import Model.Generic Proofs.GenericZ.
 Theorem C09_inner_candidates : forall s e m a z, In (a, z) (anomaly_intervals s e m) <->
   (s < a /\ a + m <= z /\ z < e /\ m <= (e - z) + (a - s))%nat.
 Proof. exact anomaly_intervals_spec. Qed.
@@ -85,3 +86,9 @@ Proof. exact @cbs_ext_valid_arith. Qed.
 Print Assumptions C09_checker_sound.
 Print Assumptions C09_model_equality_checker_sound.
 Print Assumptions C09_only_valid_cuts_matter.
+
+(** ---- added: statements re-derived from the lemma files by tools/append_props.py ---- *)
+Theorem C09_generic_loop_at_Z_is_the_model : forall (LS : nat -> nat -> nat -> nat -> T Zn) (m : nat) (thr : T Zn) (ivs : list (nat * nat)), gcbs Zn LS m thr ivs = cbs LS m thr ivs.
+Proof. exact @gcbs_Z. Qed.
+
+Print Assumptions C09_generic_loop_at_Z_is_the_model.
